@@ -1,5 +1,6 @@
 pub mod c02;
 pub mod c03;
+pub mod c04;
 pub mod c07;
 pub mod c09;
 pub mod c10;
@@ -8,6 +9,7 @@ pub mod c12;
 pub mod c13;
 pub mod c18;
 pub mod c19;
+pub mod c20;
 
 use crate::simkit::Property;
 
@@ -15,6 +17,7 @@ pub fn by_id(id: &str) -> Option<Box<dyn Property>> {
     match id {
         "C02" => Some(Box::new(c02::C02)),
         "C03" => Some(Box::new(c03::C03)),
+        "C04" => Some(Box::new(c04::C04)),
         "C07" => Some(Box::new(c07::C07)),
         "C09" => Some(Box::new(c09::C09)),
         "C10" => Some(Box::new(c10::C10)),
@@ -23,7 +26,8 @@ pub fn by_id(id: &str) -> Option<Box<dyn Property>> {
         "C13" => Some(Box::new(c13::C13)),
         "C18" => Some(Box::new(c18::C18)),
         "C19" => Some(Box::new(c19::C19)),
+        "C20" => Some(Box::new(c20::C20)),
         _ => None,
     }
 }
-pub const ALL: &[&str] = &["C02", "C03", "C07", "C09", "C10", "C11", "C12", "C13", "C18", "C19"];
+pub const ALL: &[&str] = &["C02", "C03", "C04", "C07", "C09", "C10", "C11", "C12", "C13", "C18", "C19", "C20"];
